@@ -27,8 +27,10 @@ def gen_int_graph(rnd, scale='unit', n=None):
     if scale == '1e7':
         g = {k: ((1e7 + p[0] * 3.1 + 0.37, 2e6 + p[1] * 2.7 + 0.41), nb) for k, (p, nb) in g.items()}
     elif scale == 'deg':
-        lat0, lon0 = rnd.choice([(50.0, 4.0), (-35.0, 120.0), (0.0, 0.0), (59.0, -75.0), (-23.5, -46.6)])
-        g = {k: ((lat0 + p[0] * 2e-3, lon0 + p[1] * 2e-3), nb) for k, (p, nb) in g.items()}
+        lat0, lon0 = rnd.choice([(50.0, 4.0), (-35.0, 120.0), (0.0, 0.0), (59.0, -75.0), (-23.5, -46.6), (-16.85, 179.997), (0.0, 179.999)])
+        # (the last two straddle the antimeridian; longitudes are given in (-180, 180])
+        wrap = lambda lo: lo - 360.0 if lo > 180.0 else lo
+        g = {k: ((lat0 + p[0] * 2e-3, wrap(lon0 + p[1] * 2e-3)), nb) for k, (p, nb) in g.items()}
     return g
 
 
@@ -91,6 +93,22 @@ def build_sqlite(g, d, name='m', use_latlon=False, how='bulk', **kw):
             m.add_edge(a, b, no_index=True, no_commit=True)
         m.db.commit()
         m.reindex_edges()
+    elif how == 'import':
+        # the way a large import is done: everything without index and commit, both indexes rebuilt at the very end
+        for k, p in nodes:
+            m.add_node(k, p, no_index=True, no_commit=True)
+        for a, b in edges:
+            m.add_edge(a, b, no_index=True, no_commit=True)
+        m.db.commit()
+        m.reindex_nodes()
+        m.reindex_edges()
+    elif how == 'bulk2':
+        # two bulk loads into the same map (e.g. a second district added later)
+        m.add_nodes(nodes)
+        h2 = max(1, len(edges) // 2)
+        m.add_edges(edges[:h2])
+        if edges[h2:]:
+            m.add_edges(edges[h2:])
     elif how == 'bulk-noindex-last':
         # the last writing operation is a bulk insert without indexing (neighbour queries see the edges, box queries do not)
         m.add_nodes(nodes)
@@ -163,7 +181,7 @@ def case_C11(seed):
         import copy
         U.quiet()
         import io, contextlib
-        how11 = rnd.choice(['bulk', 'single'])
+        how11 = rnd.choice(['bulk', 'single']) if seed % 4 else ['deferred', 'import', 'bulk2'][(seed // 4) % 3]
         pts = [v[0] for v in g.values()]
         unit = {'unit': 1.0, '1e7': 3.0, 'deg': 200.0, 'deg-rim': 200.0}[scale]      # typical length in the metric's unit
         grown = seed % 3 == 1 and rim is None and len(g) >= 3
@@ -208,6 +226,7 @@ def case_C11(seed):
                 loc = rim[0]
             elif use_latlon:
                 loc = (base[0] + rnd.uniform(-2e-3, 2e-3), base[1] + rnd.uniform(-2e-3, 2e-3))
+                loc = (loc[0], loc[1] - 360.0 if loc[1] > 180.0 else (loc[1] + 360.0 if loc[1] <= -180.0 else loc[1]))
             else:
                 loc = (base[0] + rnd.uniform(-1, 1) * unit, base[1] + rnd.uniform(-1, 1) * unit)
             if rnd.random() < 0.3:
@@ -256,6 +275,14 @@ def case_C11(seed):
                         f2 = [t for t in xe_full if box[0] <= g[t[1]][0][0] <= box[2] and box[1] <= g[t[1]][0][1] <= box[3]]
                         if len(f2) < len(xe_full) and same_ranked(ge, f2, lambda t: (t[1], t[2]), max_elmt):
                             key = 'C11:inmem-edges-closeto-missing-long-edge'
+                    if nm == 'SqliteMap' and use_latlon:
+                        # known finding F22: an edge that CROSSES the antimeridian is indexed with the long-way-round longitude
+                        # interval (min/max of its end points), so a query box near the date line does not meet it
+                        crossing = lambda t: abs(g[t[1]][0][1] - g[t[2]][0][1]) > 180.0
+                        found22 = set((t[1], t[2]) for t in ge)
+                        f22 = [t for t in xe_full if not crossing(t) or (t[1], t[2]) in found22]
+                        if len(f22) < len(xe_full) and same_ranked(ge, f22, lambda t: (t[1], t[2]), max_elmt):
+                            key = 'C11:sqlite-edge-index-misses-edges-crossing-the-antimeridian'
                     viol.append((key, f"{nm}.edges_closeto({loc}, {r}, {max_elmt}) = {[(round(t[0], 6), t[1], t[2]) for t in ge]}, expected {[(round(t[0], 6), t[1], t[2]) for t in xe]}",
                                  {'graph': {str(k): [list(v[0]), v[1]] for k, v in g.items()}, 'scale': scale, 'loc': list(loc), 'radius': r, 'max_elmt': max_elmt}))
                 else:
@@ -329,7 +356,7 @@ def case_C12(seed):
         from leuvenmapmatching.map.inmem import InMemMap
         import copy, io, contextlib
         U.quiet()
-        how = rnd.choice(['bulk', 'single', 'deferred'])
+        how = rnd.choice(['bulk', 'single', 'deferred']) if seed % 4 else ['import', 'bulk2', 'deferred'][(seed // 4) % 3]
         grown = seed % 3 == 0 and len(g) >= 3
         ys = [v[0][0] for v in g.values()]
         xs = [v[0][1] for v in g.values()]
@@ -409,6 +436,8 @@ def case_C18(seed):
     d = tempfile.mkdtemp(prefix='verif_c18_')
     viol = []
     how = rnd.choice(['bulk', 'single', 'deferred', 'mixed', 'bulk-noindex-last'])
+    if seed % 5 == 3:
+        how = ['import', 'bulk2'][(seed // 5) % 2]
     crs = rnd.choice([{}, {}, {'crs_lonlat': 'EPSG:4258', 'crs_xy': 'EPSG:31370'}])
     cycles = rnd.choice([1, 2, 3])
     try:
